@@ -8,6 +8,9 @@
 (*              permutation); for top-level function declarations the sets are the ones the model    *)
 (*              computes from the AST (ScopeOK)                                                    *)
 (*   Judge    : (from C05) the common observation is the one MiniJS prescribes                      *)
+(*   Enum15   : the spaces enumerated here (second half of the module): capture-order programs,      *)
+(*              programs that fail, bystanders that use their names, text-compiling built-ins, and   *)
+(*              the histories (what is evaluated before what, how often, with how much time between) *)
 EXTENDS C05
 
 \* ---------------- scope analysis on MiniJS ASTs (what Slots calls Free / Captured / LocalSet) -------------------
